@@ -29,7 +29,8 @@ META = dict(
         'get_nearest_prev_point on a smaller box (loop from the start point)',
         'one-off sequences: a, q in [-20,20]/[-30,30] quick, [-99,99] thorough',
         'exclusions: start 1 (thorough 0,1), n in [0,3], excluded point e in '
-        '[-1,8], query in [-2,10], exclusion sequence step 2/3 offset 0/1; '
+        '[-1,8], query in [-2,10], exclusion sequence step 2/3 starting 0..3 '
+        'after the main start; '
         'oracle = window formula over [-2,12] decided by z3',
         'constructor: 22 concrete recurrence templates covering all regex '
         'forms; context start cs in [-2,6], context stop ce in [-2,16] (quick)'
@@ -471,11 +472,15 @@ def OBLIGATIONS(tier):
         combos = [(k, ek, us, eo, a)
                   for k in (1, 2, 3)
                   for ek, us, eo in ((2, False, 0), (2, True, 0),
-                                     (2, True, 1), (3, True, 1))
+                                     (2, True, 1), (3, True, 1),
+                                     (2, True, 2), (3, True, 3))
                   for a in (0, 1)]
     else:
         combos = [(1, 2, False, 0, 1), (1, 2, True, 1, 1),
-                  (2, 2, True, 0, 1), (2, 3, True, 1, 1)]
+                  (2, 2, True, 0, 1), (2, 3, True, 1, 1),
+                  # an exclusion sequence that starts a whole step of its
+                  # own after the main one: its bounds matter
+                  (1, 2, True, 2, 1)]
     for name in OBS_EX:
         for k, ek, us, eo, a in combos:
             obs.append(Ob(
